@@ -115,6 +115,8 @@ def with_ctx(entries, over):
 GROUPS["bvf_iarray"] = dict(name="bvf_iarray", prelude=lambda ctx: BVF_PRELUDE + iarray_prelude(ctx),
     items=lambda ctx: BVF_BASE + int_impl_j(ctx) + stub(BVF_CORE) + slice_ia() + with_ctx(verify(["bvf.int_len", "bvf.get_int"]), YJ))
 
+GROUPS["bvf_set_int"] = dict(name="bvf_set_int", prelude=lambda ctx: BVF_PRELUDE + iarray_prelude(ctx),
+    items=lambda ctx: BVF_BASE + int_impl_j(ctx) + stub(BVF_CORE) + slice_ia() + with_ctx(verify(["bvf.set_int"]), YJ))
 def iarray_prelude_d(ctx):
     return ["iarray.rs"] + ([word_j()] if ctx["J"] != "u64" else []) + [("chunk.rs", {"Y": "_{J}" if ctx["J"] != "u64" else ""})]
 def yj_d(ctx):
@@ -532,6 +534,40 @@ GROUPS["bvd_iterfwd"]["features"] = "#![feature(allocator_api)]"
 GROUPS["bvd_fmt"]["features"] = "#![feature(allocator_api)]\nuse vstd::string::*;"
 GROUPS["bv_fmt"] = G("bv_fmt", BV_PRELUDE + ["bv_words.rs", "fmt.rs"], BV_BASE + stub(["bvf." + x for x in FMT3] + ["bvd." + x for x in FMT3]) + verify(["bv." + x for x in FMT3]))
 GROUPS["bv_fmt"]["features"] = "#![feature(allocator_api)]\nuse vstd::string::*;"
+# append / prepend of Bvd with a Bvd operand (ctx: BD, J, XB, HG2 as for div_rem)
+SPLICE_D = {"BD": "Bvd", "J": "u64", "XB": "", "HG2": ""}
+GROUPS["bvd_splice"] = dict(name="bvd_splice", features="#![feature(allocator_api)]",
+    prelude=lambda ctx: BVD_PRELUDE + ["iarray.rs", ("chunk.rs", {"J": "u64", "Y": ""}), "splice.rs"],
+    items=lambda ctx: BVD_BASE + stub(BVD_CORE) + stub(["bvd.resize"]) + [("stub", "bvd.int_len", {"J": "u64", "Y": ""}), ("stub", "bvd.get_int", {"J": "u64", "Y": ""})] + slice_ia("stub", {"J": "u64", "Y": ""})
+        + verify(["bvd.append"]))
+def splice_bvf_ctx(j):
+    c = pair("u64", j)
+    c.update({"BD": "Bvf<%s, N2>" % j, "XB": c["XJ"], "HG2": "<const N2: usize>"})
+    return c
+GROUPS["bvd_splice_bvf"] = dict(name="bvd_splice_bvf", features="#![feature(allocator_api)]",
+    prelude=lambda ctx: BVD_PRELUDE + src_bvf_prelude(ctx) + ["splice.rs"],
+    items=lambda ctx: BVD_BASE + src_bvf_items(ctx) + stub(BVD_CORE) + stub(["bvd.resize"]) + [("stub", "bvd.shl_assign", {"T": "usize"}), ("stub", "bvf.is_empty", {"I": "{J}", "X": "{XJ}"})]
+        + verify(["bvd.append", "bvd.prepend"]))
+# Bvf<I,N>.append/prepend(&Bvf<I,N2>): byte chunks of subject and operand (same word type K = I)
+def splicef_ctx(i):
+    return {"I": i, "J": "u8", "K": i, "XK": "", "Y8": "" if i == "u8" else "_u8", "BD": "Bvf<%s, N2>" % i, "HG2": "<const N2: usize>"}
+def splicef_prelude(ctx):
+    y8 = ctx["Y8"]
+    p = BVF_PRELUDE + ["iarray.rs"]
+    if ctx["I"] != "u8":
+        p += [("word.rs", {"I": "u8", "X": "_u8"})]
+    p += [("chunk.rs", {"J": "u8", "Y": y8}), "splice8.rs"]
+    return p
+def splicef_items(ctx):
+    y = {"J": "u8", "Y": ctx["Y8"]}
+    it = BVF_BASE + (int_impl_j(dict(ctx, J="u8")) if ctx["I"] != "u8" else []) + stub(BVF_CORE)
+    it += [("stub", "bvf.int_len", y), ("stub", "bvf.get_int", y), ("stub", "bvf.set_int", y)] + slice_ia("stub", y)
+    it += [("stub", "bvf.shl_assign", {"T": "usize"}), ("stub", "bvf.is_empty")]
+    return it + verify(["bvf.append", "bvf.prepend"])
+GROUPS["bvf_splice"] = dict(name="bvf_splice", prelude=splicef_prelude, items=splicef_items)
+GROUPS["bvf_insert"] = G("bvf_insert", BVF_PRELUDE, BVF_BASE + stub(BVF_CORE) + stub(["bvf.split_off"]) + [("stub", "bvf.append", {"BD": "Bvf<{I}, N2>", "HG2": "<const N2: usize>", "XK": "", "K": "{I}"})] + verify(["bvf.insert"]))
+GROUPS["bvd_insert"] = G("bvd_insert", BVD_PRELUDE, BVD_BASE + stub(BVD_CORE) + stub(["bvd.split_off"]) + [("stub", "bvd.append", SPLICE_D)] + verify(["bvd.insert"]))
+GROUPS["bvd_insert"]["features"] = "#![feature(allocator_api)]"
 GROUPS["bvd_from_bytes"] = G("bvd_from_bytes", BVD_PRELUDE + ["bytes.rs", "bytes_from.rs"], BVD_BASE + stub(BVD_CORE) + verify(["bvd.from_bytes"]))
 GROUPS["bvd_from_bytes"]["features"] = "#![feature(allocator_api)]"
 GROUPS["bvd_bytes"] = G("bvd_bytes", BVD_PRELUDE + ["bytes.rs"], BVD_BASE + stub(BVD_CORE) + verify(["bvd.to_vec"]))
@@ -925,6 +961,16 @@ def fmt_jobs(ws):
             + [("bvf_fmt_dec", {"I": i}) for i in ws] + [("bvd_fmt_dec", U64), ("bv_fmt_dec", U64)])
 PROPS["C14"] = {"quick": fmt_jobs(WQ), "thorough": fmt_jobs(W4)}
 
+def splice_jobs(ws):
+    return ([("bvd_splice", dict(U64, **SPLICE_D)), ("bvd_insert", U64)] + [("bvd_splice_bvf", splice_bvf_ctx(j)) for j in ws]
+            + [("bvf_splice", splicef_ctx(i)) for i in ws] + [("bvf_set_int", {"I": i, "J": "u8"}) for i in ws] + [("bvf_insert", {"I": i}) for i in ws])
+PROPS["C07"]["quick"] += splice_jobs(WQ)
+PROPS["C07"]["thorough"] += splice_jobs(W4)
+PROPS["C18"]["quick"] += [("bvd_splice", dict(U64, **SPLICE_D))]
+PROPS["C18"]["thorough"] += [("bvd_splice", dict(U64, **SPLICE_D))] + [("bvd_splice_bvf", splice_bvf_ctx(j)) for j in W4]
+PROPS["C19"]["quick"] += [("bvf_splice", splicef_ctx("u8"))]
+PROPS["C19"]["thorough"] += [("bvf_splice", splicef_ctx(i)) for i in W4]
+
 MANIFEST_TEXT = {}
 TRUST_NOTE = ("Trusted base (also listed verbatim in the evidence): assumed contracts of std functions (T1: overflowing_add/sub, "
               "Result::map_or, integer TryFrom, ...), machine model 64-bit little-endian (T5), storage < usize::MAX/2 bits (A-size), "
@@ -954,12 +1000,17 @@ MANIFEST_TEXT["C08"] = dict(
           "defaults split_off/split/first/last are verified against list contracts, instantiated for the implementing type."),
     note=COVER_BVF + TODO_NOTE + ". " + TRUST_NOTE)
 MANIFEST_TEXT["C07"] = dict(
-    text=("Proof: push/pop/set/resize and the trait defaults truncate/sign_extend are verified against list-edit contracts that fix every storage bit of the result."),
-    note=COVER_BVF + TODO_NOTE + ", append/prepend/insert, Extend/FromIterator (planned: bounded Kani stand-in). " + TRUST_NOTE)
+    text=("Proof: push/pop/set/resize, the trait defaults truncate/sign_extend, and append / prepend / insert are verified against list-edit contracts that fix every storage bit of the result "
+          "(append: the old bits, then the operand's bits, length = sum; prepend: the operand's bits, then the old bits shifted up; insert(i, x): x's bits at i..i+len(x), the rest shifted up; empty operands included). "
+          "append/prepend are the real word-granular splice of Bvd (operand Bvd or Bvf<J,N2>, J = u8..u64: aligned copy, funnel of two operand words across the word boundary, final partial word) and the real byte-granular splice of Bvf<I,N> "
+          "(operand Bvf<I,N2>; through the verified get_int::<u8> / set_int::<u8>), proved against one splice theory each (spec/prelude/splice.rs, splice8.rs); exceeding a fixed capacity is a reachable panic only under "
+          "`len + operand len > capacity` (panics_if), prepend of an empty operand returns unchanged; insert is the trait default (split_off + two appends) over those contracts."),
+    note=COVER_BVF + TODO_NOTE + ". Not under contract (second engine only): append/prepend/insert of Bv and with operands of another implementation than listed (Bvf subject with Bvd/Bv operand, Bv operands), Extend/FromIterator (`iter.for_each(|b| self.push(b))`: closure-driven adapter). "
+         "Bvf::set_int and the byte reads rest on the slice-level contract T2 (unsafe align_to: u8 chunks of wider words). " + TRUST_NOTE)
 MANIFEST_TEXT["C19"] = dict(
     text=("Proof, both build profiles: every verified Bvf unit establishes wf (len <= capacity, storage beyond len zero); zeros/ones/push/resize/sign_extend/repeat carry "
           "`panics_if would exceed capacity` - every explicit panic site is reachable only under that condition and returning implies its negation - in the dev AND the release expansion."),
-    note=COVER_BVF + "Not yet under contract: from_bytes/from_binary/from_hex/read/TryFrom capacity errors, append/prepend/insert/extend, the debug-only index asserts of get/set/copy_range as a separate dev-profile instance. " + TRUST_NOTE)
+    note=COVER_BVF + "Also verified with their capacity behaviour: from_bytes / from_binary / from_hex / read (Err(NotEnoughCapacity) resp. Err(InvalidInput), see C13, C15), TryFrom (C11, C12), append/prepend/insert of Bvf (panic exactly when the result exceeds the capacity, C07). Not yet under contract: extend / FromIterator, the debug-only index asserts of get/set/copy_range as a separate dev-profile instance. " + TRUST_NOTE)
 
 MANIFEST_TEXT["C18"] = dict(
     text=("Proof: Bvd::{with_capacity,reserve,shrink_to_fit,capacity,push,pop,resize,zeros,ones} are verified against contracts that keep every bit and the length, "
